@@ -140,7 +140,7 @@ def check(pid, tier):
     v = Verdict("C18")
     d = design(tier)
     rp = replay(tier, v)
-    cov = checks.trace_part("C18", "Runs", 700, ("tr",), tier if tier == "quick" else "quick4", v)
+    cov = checks.trace_part("C18", "Runs", 700, ("tr",), tier, v)
     cov["design"] = d
     cov["replay"] = {k: rp[k] for k in ("transitions_replayed", "export_states")}
     cov["states"] += d["states"] + rp["export_states"]
